@@ -64,33 +64,41 @@ theorem foldUntil_partition_inv (hk : KindInv kind cmp P) (p : K → V → Bool)
       obtain ⟨rfl, rfl⟩ := e3
       exact ⟨pm, hk.put _ _ _ _ pu e2⟩
 
-theorem step_inv (hk : KindInv kind cmp P) (eqVal : V → V → Bool) (s s' : State K V) (op : Op K V)
-    (o : Out K V) (hs : P s.1 ∧ P s.2.1 ∧ P s.2.2) (he : step kind cmp eqVal s op = .ok (s', o)) :
-    P s'.1 ∧ P s'.2.1 ∧ P s'.2.2 := by
-  obtain ⟨s1, s2, s3⟩ := s
+end
+
+section
+variable {kind : Kind} {P : Tree K V → Prop}
+
+/-- the three tables of a state satisfy `P` -/
+def AllP (P : Tree K V → Prop) (s : State K V) : Prop := P s.1.root ∧ P s.2.1.root ∧ P s.2.2.root
+
+theorem step_inv (hk : ∀ cmp : K → K → Int, KindInv kind cmp P) (s s' : State K V) (op : Op K V)
+    (o : Out K V) (hs : AllP P s) (he : step kind s op = .ok (s', o)) : AllP P s' := by
+  obtain ⟨⟨c1, q1, s1⟩, ⟨c2, q2, s2⟩, ⟨c3, q3, s3⟩⟩ := s
   obtain ⟨p1, p2, p3⟩ := hs
+  have hk1 := hk c1
   cases op with
   | put k v =>
     simp only [step] at he
     obtain ⟨a, e0, e1⟩ := bind_eq_ok he
     cases e1
-    exact ⟨hk.put _ _ _ _ p1 e0, p2, p3⟩
+    exact ⟨hk1.put _ _ _ _ p1 e0, p2, p3⟩
   | delete k =>
     simp only [step] at he
     obtain ⟨⟨a, r⟩, e0, e1⟩ := bind_eq_ok he
     cases e1
-    exact ⟨hk.delete _ _ _ _ p1 e0, p2, p3⟩
+    exact ⟨hk1.delete _ _ _ _ p1 e0, p2, p3⟩
   | deleteMin =>
     simp only [step] at he
     obtain ⟨⟨a, r⟩, e0, e1⟩ := bind_eq_ok he
     cases e1
-    exact ⟨hk.deleteMin _ _ _ p1 e0, p2, p3⟩
+    exact ⟨hk1.deleteMin _ _ _ p1 e0, p2, p3⟩
   | deleteMax =>
     simp only [step] at he
     obtain ⟨⟨a, r⟩, e0, e1⟩ := bind_eq_ok he
     cases e1
-    exact ⟨hk.deleteMax _ _ _ p1 e0, p2, p3⟩
-  | deleteAll => cases he; exact ⟨hk.nil, p2, p3⟩
+    exact ⟨hk1.deleteMax _ _ _ p1 e0, p2, p3⟩
+  | deleteAll => cases he; exact ⟨hk1.nil, p2, p3⟩
   | swap => cases he; exact ⟨p2, p1, p3⟩
   | swapC => cases he; exact ⟨p3, p2, p1⟩
   | select i =>
@@ -106,10 +114,10 @@ theorem step_inv (hk : KindInv kind cmp P) (eqVal : V → V → Bool) (s s' : St
     unfold selectMatch at e0
     by_cases hn : s1.isNil = true
     · cases s1 with
-      | nil => simp only [traverse] at e0; cases e0; exact hk.nil
+      | nil => simp only [traverse] at e0; cases e0; exact hk1.nil
       | node => simp at hn
     · rw [traverse_eq _ (by decide)] at e0
-      exact foldUntil_select_inv hk p _ _ (fun m hm => by cases hm; exact hk.nil) m e0
+      exact foldUntil_select_inv hk1 p _ _ (fun m hm => by cases hm; exact hk1.nil) m e0
   | partitionMatch p =>
     simp only [step] at he
     obtain ⟨⟨m, u⟩, e0, e1⟩ := bind_eq_ok he
@@ -117,23 +125,23 @@ theorem step_inv (hk : KindInv kind cmp P) (eqVal : V → V → Bool) (s s' : St
     refine ⟨p1, ?_⟩
     unfold partitionMatch at e0
     rw [traverse_eq _ (by decide)] at e0
-    exact foldUntil_partition_inv hk p _ _
-      (fun m u hm => by cases hm; exact ⟨hk.nil, hk.nil⟩) m u e0
+    exact foldUntil_partition_inv hk1 p _ _
+      (fun m u hm => by cases hm; exact ⟨hk1.nil, hk1.nil⟩) m u e0
   | size | isEmpty | height | get _ | min | max | floor _ | ceiling _ | rank _ | range _ _
-  | rangeSize _ _ | all | allUntil _ | traverse _ _ | equal | equalOther | anyMatch _ | allMatch _
+  | rangeSize _ _ | all | allUntil _ | traverse _ _ | equal | equalSelf | equalOther | anyMatch _ | allMatch _
   | firstMatch _ =>
     cases he; exact ⟨p1, p2, p3⟩
 
-theorem runFrom_inv (hk : KindInv kind cmp P) (eqVal : V → V → Bool) :
-    ∀ (ops : List (Op K V)) (s s' : State K V) (outs : List (Out K V)), (P s.1 ∧ P s.2.1 ∧ P s.2.2) →
-      runFrom kind cmp eqVal s ops = .ok (s', outs) → P s'.1 ∧ P s'.2.1 ∧ P s'.2.2
+theorem runFrom_inv (hk : ∀ cmp : K → K → Int, KindInv kind cmp P) :
+    ∀ (ops : List (Op K V)) (s s' : State K V) (outs : List (Out K V)), AllP P s →
+      runFrom kind s ops = .ok (s', outs) → AllP P s'
   | [], s, s', outs, hs, he => by cases he; exact hs
   | op :: ops, s, s', outs, hs, he => by
     simp only [runFrom] at he
     obtain ⟨⟨s1, o⟩, e0, e1⟩ := bind_eq_ok he
     obtain ⟨⟨s2, os⟩, e2, e3⟩ := bind_eq_ok e1
     cases e3
-    exact runFrom_inv hk eqVal ops s1 s2 os (step_inv hk eqVal s s1 op o hs e0) e2
+    exact runFrom_inv hk ops s1 s2 os (step_inv hk s s1 op o hs e0) e2
 
 end
 
